@@ -1,12 +1,16 @@
 (* C17 - Parsing a partially buffered NAL never contradicts parsing the complete NAL.
-   A partial NAL is a source whose bits are a prefix of the complete NAL's and whose tail is WouldBlock
-   (C02/C15 justify this view of the byte layers).  `mono` : on the prefix a parser blocks, or returns
-   the same value as on the whole (sources still related), or fails where the whole fails.
-   Proved: all primitives, closure under the combinators, the whole SPS parser.  PPS, slice header and
-   SEI reader are built from the same primitives and combinators (plus fuelled loops whose fuel depends
-   on the source length); for them the statement is carried by the correspondence check. Purity holds
-   in the model by construction (values, no hidden state); reuse of scratch storage is observed only. *)
-From H264 Require Import Base.Prelude Model.BitReader Model.Parser Model.Sps Proofs.C17_proofs.
+   A partial NAL is, for the parsers, a bit source whose bits are a prefix of the complete NAL's and whose
+   tail is WouldBlock: C17_partial_view proves this from the byte layers (chunked reader + RBSP reader,
+   C15 + C02) for every clean NAL, every prefix of it and any two chunkings.  `mono` : on the prefix a parser
+   blocks, or returns the same value as on the whole (sources still related), or fails where the whole
+   fails.  Proved: all primitives and combinators; the whole SPS, PPS and slice-header parsers (their
+   fuelled loops take fuel from the source length - shown insensitive to the extra fuel of the longer
+   source); SPS and PPS never succeed on a proper prefix; the SEI reader on a prefix yields a prefix of the
+   complete message sequence and then a would-block failure.  Purity holds in the model by construction
+   (values, no hidden state); reuse of scratch storage is observed by the correspondence run only. *)
+From H264 Require Import Base.Prelude Base.Bits Spec.Escape Model.BitReader Model.Parser Model.RefNal Model.Rbsp Model.Source
+     Model.Sps Model.Context Model.Pps Model.Slice Model.Sei Model.Driver
+     Proofs.C17_proofs Proofs.C17_more Proofs.C17_tie.
 
 Theorem C17_primitives : forall nm w n,
   mono blocked (read_bool nm) /\ mono blocked (read_u w n nm) /\ mono blocked (read_ue nm) /\
@@ -22,13 +26,35 @@ Theorem C17_combinators : forall (E A B : Type) (blk : E -> Prop) (p : PE E A) (
 Proof. intros E A B blk p k n Hp Hk. split; [apply mono_bind; assumption|apply mono_repE; exact Hp]. Qed.
 Print Assumptions C17_combinators.
 
-(* the SPS structure parser is monotone ... *)
+(* what the parsers see of a partially buffered NAL: for a clean NAL given as chunks head2 :: tl2 and any
+   prefix of its bytes given as chunks head1 :: tl1 of an incomplete NAL, the two bit sources built by the
+   byte layers are in the prefix relation (and the complete one is the unescaped payload) *)
+Theorem C17_partial_view : forall head1 tl1 head2 tl2 more p,
+  head1 <> [] -> Forall (fun ch => ch <> []) tl1 -> head2 <> [] -> Forall (fun ch => ch <> []) tl2 ->
+  head2 ++ concat tl2 = (head1 ++ concat tl1) ++ more ->
+  unescape (skipn 1 (head2 ++ concat tl2)) = Some p ->
+  prefix_src (bitsrc_of_source (SrcNal false (head1 :: tl1))) (bitsrc_of_source (SrcNal true (head2 :: tl2))) /\
+  bitsrc_of_source (SrcNal true (head2 :: tl2)) = mk_src (bits_of_bytes p) TEof.
+Proof. exact partial_nal_prefix_src. Qed.
+Print Assumptions C17_partial_view.
+
+(* the structure parsers are monotone ... *)
 Theorem C17_sps_body : mono blk_sps sps_body.
 Proof. exact mono_sps_body. Qed.
 Print Assumptions C17_sps_body.
 
-(* ... and SPS parsing, which must see the end of the RBSP, never succeeds on a proper prefix; when it
-   fails for another reason than "would block", the complete NAL fails too *)
+Theorem C17_pps_body : forall ctx, mono blk_pps (pps_body ctx).
+Proof. exact mono_pps_body. Qed.
+Print Assumptions C17_pps_body.
+
+(* a slice header accepted from a prefix equals the one parsed from the whole NAL; a failure on the prefix
+   is "would block" or a failure on the whole *)
+Theorem C17_slice_header : forall ctx hdr, mono blk_slice (slice_header_read ctx hdr).
+Proof. exact mono_slice_header. Qed.
+Print Assumptions C17_slice_header.
+
+(* ... and SPS / PPS parsing, which must see the end of the RBSP, never succeeds on a proper prefix; when
+   it fails for another reason than "would block", the complete NAL fails too *)
 Theorem C17_sps_never_ok_on_prefix : forall s1 s2, prefix_src s1 s2 ->
   match sps_from_bits s1 with
   | OK _ => False
@@ -38,8 +64,49 @@ Theorem C17_sps_never_ok_on_prefix : forall s1 s2, prefix_src s1 s2 ->
 Proof. exact sps_prefix_consistent. Qed.
 Print Assumptions C17_sps_never_ok_on_prefix.
 
-(* PPS / SEI payloads likewise end with a check that needs the end of data *)
+Theorem C17_pps_never_ok_on_prefix : forall ctx s1 s2, prefix_src s1 s2 ->
+  match pps_from_bits ctx s1 with
+  | OK _ => False
+  | ERR e => blk_pps e \/ exists e', pps_from_bits ctx s2 = ERR e'
+  | _ => True
+  end.
+Proof. exact pps_prefix_consistent. Qed.
+Print Assumptions C17_pps_never_ok_on_prefix.
+
 Theorem C17_finish_needs_end : forall s, tail s <> TEof ->
   (forall u, finish_rbsp s <> OK u) /\ (forall u, finish_sei_payload s <> OK u).
 Proof. intros s H. split; [apply finish_rbsp_partial|apply finish_sei_partial]; exact H. Qed.
 Print Assumptions C17_finish_needs_end.
+
+(* the SEI reader over a partially buffered NAL: the messages it yields are a prefix of those of the
+   complete NAL, and it then fails with "would block" (or exactly as the complete NAL fails); it never
+   reports the end of the messages *)
+Theorem C17_sei_reader : forall fuel r1 r2, prefix_reader r1 r2 ->
+  let '(ms1, e1) := sei_collect fuel r1 in
+  let '(ms2, e2) := sei_collect fuel r2 in
+  exists rest, ms2 = ms1 ++ rest /\
+    match e1 with
+    | ERR e => blocked e \/ (rest = [] /\ e2 = ERR e)
+    | OK _ => False
+    | _ => True
+    end.
+Proof. exact sei_collect_prefix. Qed.
+Print Assumptions C17_sei_reader.
+
+Theorem C17_sei_partial_view : forall head1 tl1 head2 tl2 more p,
+  head1 <> [] -> Forall (fun ch => ch <> []) tl1 -> head2 <> [] -> Forall (fun ch => ch <> []) tl2 ->
+  head2 ++ concat tl2 = (head1 ++ concat tl1) ++ more ->
+  unescape (skipn 1 (head2 ++ concat tl2)) = Some p ->
+  prefix_reader (sei_new (bytesrc_of_source (SrcNal false (head1 :: tl1)))) (sei_new (bytesrc_of_source (SrcNal true (head2 :: tl2)))).
+Proof. exact partial_nal_prefix_reader. Qed.
+Print Assumptions C17_sei_partial_view.
+
+(* non-vacuity: a 3-chunk prefix of a NAL with an escape, against the whole NAL in 2 chunks *)
+Example C17_ex :
+  prefix_src (bitsrc_of_source (SrcNal false [[103; 66]; [0; 0]; [3]])) (bitsrc_of_source (SrcNal true [[103; 66; 0]; [0; 3; 1; 128]])) /\
+  bitsrc_of_source (SrcNal false [[103; 66]; [0; 0]; [3]]) = mk_src (bits_of_bytes [66; 0; 0]) TWouldBlock.
+Proof.
+  split; [|vm_compute; reflexivity].
+  apply (partial_nal_prefix_src [103; 66] [[0; 0]; [3]] [103; 66; 0] [[0; 3; 1; 128]] [1; 128] [66; 0; 0; 1; 128]);
+    try discriminate; try (repeat constructor; discriminate); reflexivity.
+Qed.
